@@ -4,8 +4,8 @@
 (* sequences of bytes resp. code points.  BigInt only (digit strings).      *)
 EXTENDS BigInt
 CONSTANTS MaxFrac, CoeffBits
-CoeffMaxT == BSub(BPow2(CoeffBits), BLit(1))
-MaxDigitsT == BDigits(CoeffMaxT)
+CoeffMaxT == IF CoeffBits = 127 THEN I128MaxLit ELSE BSub(BPow2(CoeffBits), BLit(1))
+MaxDigitsT == IF CoeffBits = 127 THEN 39 ELSE BDigits(CoeffMaxT)
 
 IsDigit(b) == 48 <= b /\ b <= 57
 RECURSIVE Span(_,_)
